@@ -229,6 +229,10 @@ impl<C: Cfg> World<C> {
                     self.do_get(v, idx % len, view, tr);
                 }
             }
+            OP_MOVE => {
+                let how = ch.pick(2);
+                self.do_move(v, w, how, tr);
+            }
             OP_SWAP => {
                 let i = ch.pick(len.max(1) as u32) as usize;
                 let j = ch.pick(wlen.max(1) as u32) as usize;
@@ -284,7 +288,8 @@ impl<C: Cfg> World<C> {
             // after a leak the vector must stay fully usable
             self.forgot = false;
             self.nontrivial = true;
-            self.usability_script(tr);
+            let variant = ch.pick(2);
+            self.usability_script(variant, tr);
         }
     }
 
@@ -524,7 +529,6 @@ impl<C: Cfg> World<C> {
         self.nontrivial = true;
         self.class("fault-fired");
         let _ = write!(tr, "[fault fired in {}] ", ctx);
-        let fls: Vec<crate::backend::Flavour> = self.flav.to_vec();
         for s in 0..3 {
             if self.vecs[s].is_some() {
                 self.resync_after_damage(s);
@@ -538,17 +542,52 @@ impl<C: Cfg> World<C> {
         if self.dead() {
             return;
         }
-        self.usability_script(tr);
+        self.usability_script(FAULT_SCRIPT.with(|c| c.get()), tr);
     }
 
-    /// push, insert, remove, drain, clear, push on every vector under the ordinary oracle.
-    pub fn usability_script(&mut self, tr: &mut String) {
+    /// Ordinary use of every vector under the ordinary oracle. Variant 0: push, insert, remove,
+    /// drain, clear, pushes. Variant 1: three appends in a row (no insert in between), a capacity
+    /// change, clear, append - the state a damaged operation left behind is overwritten step by step.
+    pub fn usability_script(&mut self, variant: u32, tr: &mut String) {
         let fls: Vec<crate::backend::Flavour> = self.flav.to_vec();
-        // usability script on every surviving vector (slots 0 and 1 always exist)
+        // a vector that did not survive (e.g. the destination of an interrupted clone) is replaced
         for s in 0..self.n_slots {
             if self.vecs[s].is_none() {
                 self.setup_slot(s, fls[s], 0, None);
             }
+        }
+        if variant == 2 {
+            return;
+        }
+        if variant == 1 {
+            for s in 0..3 {
+                if self.vecs[s].is_none() {
+                    continue;
+                }
+                let _ = write!(tr, "usability'(v{}): ", s);
+                let fixed = fls[s].fixed_cap();
+                let room = |w: &Self| fixed.map(|c| c > w.model[s].len()).unwrap_or(true);
+                for (i, src) in [Src::Raw, Src::Wrapper, Src::Typed].into_iter().enumerate() {
+                    if room(self) && !self.dead() {
+                        self.do_insert(s, None, src, s, 0, 1, false, tr);
+                        self.check_state(["usability-append1", "usability-append2", "usability-append3"][i]);
+                    }
+                }
+                if C::M::RESIZABLE && !self.dead() {
+                    self.do_capacity(CapOp::ShrinkToFit, s, 0, false, tr);
+                    self.check_state("usability-shrink");
+                }
+                if !self.dead() && s % 2 == 0 {
+                    self.do_clear(s, false, tr);
+                    self.check_state("usability-clear");
+                    if room(self) && !self.dead() {
+                        self.do_insert(s, None, Src::Raw, s, 0, 1, false, tr);
+                        self.check_state("usability-push2");
+                    }
+                }
+                // odd slots are destroyed as they are by finish()
+            }
+            return;
         }
         for s in 0..3 {
             if self.vecs[s].is_none() {
@@ -594,6 +633,11 @@ impl<C: Cfg> World<C> {
     }
 }
 
+thread_local! {
+    /// which usability script follows an injected fault (set by the fault enumeration)
+    static FAULT_SCRIPT: std::cell::Cell<u32> = const { std::cell::Cell::new(0) };
+}
+
 /// Run one case of `shape` for configuration `C`.
 pub fn run_case<C: Cfg>(spec: &Spec, shape: Shape, ch: &mut Ch, tr: &mut String) -> CaseOut {
     if !spec.fault_enum || shape == Shape::History {
@@ -614,10 +658,14 @@ pub fn run_case<C: Cfg>(spec: &Spec, shape: Shape, ch: &mut Ch, tr: &mut String)
         return out;
     }
     let mut fired = 0;
-    for k in 1..=n.min(64) {
+    // every fault point is followed by both usability scripts
+    for kk in 0..2 * n.min(64) {
+        let k = 1 + kk / 2;
+        FAULT_SCRIPT.with(|c| c.set(kk % 2));
         let mut ch2 = Ch::replay(picks.clone());
         let mut tr2 = String::new();
         let (o2, _) = run_body::<C>(spec, shape, &mut ch2, &mut tr2, Some(k));
+        FAULT_SCRIPT.with(|c| c.set(0));
         out.extra_evals += 1;
         for c in o2.classes {
             if !out.classes.contains(&c) {
@@ -629,7 +677,7 @@ pub fn run_case<C: Cfg>(spec: &Spec, shape: Shape, ch: &mut Ch, tr: &mut String)
         }
         if o2.violation.is_some() || o2.desync.is_some() {
             tr.clear();
-            let _ = write!(tr, "{{fault at user-code invocation {} of {}}} {}", k, n, tr2);
+            let _ = write!(tr, "{{fault at user-code invocation {} of {}, usability script {}}} {}", k, n, kk % 2, tr2);
             out.violation = o2.violation;
             out.desync = o2.desync;
             out.nontrivial = true;
@@ -876,9 +924,13 @@ pub fn run_body<C: Cfg>(spec: &Spec, shape: Shape, ch: &mut Ch, tr: &mut String,
                 }
                 if spec.fault_enum && w.faults_fired < 3 && ch.pick(3) == 0 {
                     let k = 1 + ch.pick(6);
+                    // what follows the fault: script 0, script 1, or nothing but the rest of the history
+                    let script = ch.pick(3);
+                    FAULT_SCRIPT.with(|c| c.set(script));
                     w.arm_fault(k);
                     w.step(ch, true, tr);
                     w.disarm_fault();
+                    FAULT_SCRIPT.with(|c| c.set(0));
                 } else {
                     w.step(ch, true, tr);
                 }
